@@ -257,6 +257,7 @@ int __wrap_fsync(int fd) { if (!sut()) return __real_fsync(fd); note("fsync", nu
 int __wrap_fdatasync(int fd) { if (!sut()) return __real_fdatasync(fd); note("fdatasync", nullptr, fd, 0); return 0; }
 int __wrap_getentropy(void* buf, size_t n) {
     if (!sut()) return __real_getentropy(buf, n);
+    if (g_cur_op && g_cur_op->fault == "getentropy_enosys") { if (S) { S->faults_fired++; S->fault_kind[F_EIO]++; } errno = ENOSYS; return -1; }   // old kernel / seccomp: the fallbacks must fill the buffer
     int r = __real_getentropy(buf, n);           // keeps glibc's real contract (e.g. the 256-byte limit)
     if (r == 0) { uint8_t* b = (uint8_t*)buf; for (size_t i = 0; i < n; i++) { uint8_t v = (uint8_t)(splitmix64(g_entropy_state) >> 13); b[i] = v; if (g_entropy_log) g_entropy_log->push_back(v); } }
     return r;
